@@ -340,6 +340,11 @@ def handleProposal (c : Committee) (s : Node) (b : Block) : Node :=
 def isPerm (a b : List Nat) : Bool :=
   a.length == b.length && a.all (fun x => a.count x == b.count x)
 
+/-- `Block::new` in `Proposer::make_block`: the block signed by ourselves over its digest. -/
+def ownBlock (name r : Nat) (qc : QC) (tc : Option TC) (payload : List Nat) : Block :=
+  { qc := qc, tc := tc, author := name, round := r, payload := payload,
+    sig := ⟨name, .block (.block name r payload qc.hash)⟩ }
+
 def proposerStep (s : Node) (order : List Nat) : Node :=
   match s.propQ with
   | [] => s
@@ -347,10 +352,8 @@ def proposerStep (s : Node) (order : List Nat) : Node :=
   | .make r qc tc :: rest =>
     if !isPerm order s.buffer then s
     else
-      let b0 : Block := { qc := qc, tc := tc, author := s.name, round := r, payload := order,
-                          sig := ⟨0, .junk 0⟩ }
-      let b : Block := { b0 with sig := ⟨s.name, .block b0.digest⟩ }
-      ({ s with propQ := rest, buffer := [], loopQ := s.loopQ ++ [b] }).emit (.propose b)
+      ({ s with propQ := rest, buffer := [], loopQ := s.loopQ ++ [ownBlock s.name r qc tc order] }).emit
+        (.propose (ownBlock s.name r qc tc order))
 
 /-! ### helper.rs -/
 
@@ -363,6 +366,19 @@ def helperStep (c : Committee) (s : Node) (d : Digest) (origin : Nat) : Node :=
       -- a stored entry that is not a block (a batch: the store is shared with the mempool) is
       -- skipped, or `expect`ed, depending on what helper.rs currently does (Generated/Switches)
       if Gen.helperSkipsNonBlock then s else s.fail .helperNotABlock
+
+/-! ### mempool side -/
+
+/-- A batch lands in the (shared) store: a peer's batch stored by the mempool's `Processor`,
+or a missing batch fetched by the mempool synchronizer. -/
+def storeBatch (s : Node) (d : Nat) : Node :=
+  if s.avail.contains d then s else { s with avail := d :: s.avail }
+
+/-- The node's own mempool hands a digest to the proposer.  `Processor` (mempool/src/processor.rs)
+writes the batch to the store and only then sends its digest, so the event does both. -/
+def digestStep (s : Node) (d : Nat) : Node :=
+  if (s.storeBatch d).buffer.contains d then s.storeBatch d
+  else { (s.storeBatch d) with buffer := (s.storeBatch d).buffer ++ [d] }
 
 /-! ### the micro-step -/
 
@@ -381,8 +397,8 @@ def step (c : Committee) (s : Node) (e : Event) : Node :=
       | [] => s
       | b :: rest => ({ s with loopQ := rest }).processBlock c b
     | .proposer order => s.proposerStep order
-    | .digest d => if s.buffer.contains d then s else { s with buffer := s.buffer ++ [d] }
-    | .batch d => if s.avail.contains d then s else { s with avail := d :: s.avail }
+    | .digest d => s.digestStep d
+    | .batch d => s.storeBatch d
     | .syncResume i =>
       match s.syncPending[i]? with
       | none => s
